@@ -124,6 +124,10 @@ def run_case(spec, ctx, want_B=False):
         detail.append({'what': 'user constraint violated at returned point', 'which': viol[:4],
                        'x': x.tolist(), 'solver': sname})
     otol = 20 * tol * (1 + abs(want))
+    if any(b['vtype'] != 'C' for b in spec['blocks']):
+        # MILP interfaces stop at a relative gap of 1e-4: the incumbent's auxiliary (epigraph)
+        # variables need not be tight, so the reported value may exceed the expression by the gap
+        otol = max(otol, 2e-4 * (1 + abs(want)))
     if abs(val - want) > otol:
         detail.append({'what': 'reported objective differs from the objective expression',
                        'reported': float(val), 'evaluated': float(want), 'x': x.tolist(),
